@@ -367,6 +367,51 @@ func hugeTokens(dict [][]byte) []tok {
 	}
 }
 
+// fracDictSkew: one field with many short ids plus a cluster of long values sharing a prefix (they sort together).
+// The sealer cuts a field into runs of an EQUAL NUMBER of tokens, so the run holding the cluster is a physical tokens
+// block far larger than the 16 KiB flush threshold (> 64 KiB here): offsets inside a block need their full width.
+// n = 23006: 20000 short + 3000 values of 72 bytes; n = 100406: 100000 short + 400 values of 4000 bytes.
+func fracDictSkew(seed int64, n int) [][]byte {
+	short, long, size := 20000, 3000, 72
+	if n > 50000 {
+		short, long, size = 100000, 400, 4000
+	}
+	res := make([][]byte, 0, short+long+2)
+	res = append(res, []byte(""), []byte("a"))
+	for i := 0; i < short; i++ {
+		res = append(res, []byte(fmt.Sprintf("id%06d", i*3+int(seed%3))))
+	}
+	for i := 0; i < long; i++ {
+		v := fmt.Sprintf("trace-15%05d-", i*7)
+		res = append(res, []byte(v+strings.Repeat(string(rune('a'+i%26)), size-len(v))))
+	}
+	sort.Slice(res, func(i, j int) bool { return bytes.Compare(res[i], res[j]) < 0 })
+	return res
+}
+
+func skewTokens(dict [][]byte, r *vh.RNG) []tok {
+	str := func(s string) *string { return &s }
+	var long [][]byte
+	for _, v := range dict {
+		if len(v) > 40 {
+			long = append(long, v)
+		}
+	}
+	toks := []tok{
+		{lit: patTerms("trace-15*")}, {lit: patTerms("trace-1500*")}, {lit: patTerms("trace-1520*")}, {lit: patTerms("trace-*z")}, {lit: patTerms("id0001*")},
+		{lit: patTerms("id05999*")}, {lit: patTerms("*")}, {lit: patTerms("t*")}, {lit: []term{{data: long[0]}}}, {lit: []term{{data: long[len(long)-1]}}},
+		{lit: []term{{data: long[len(long)/2]}}}, {lit: []term{{data: long[len(long)*9/10][:14]}, {star: true}}},
+		{r: &rng{from: str("trace-1510"), to: str("trace-1519"), incFrom: true}}, {r: &rng{from: str("id059990"), to: str("trace-1500100")}}, {r: &rng{from: str("trace-152")}},
+	}
+	for k := 0; k < 30; k++ {
+		v := long[r.Intn(len(long))]
+		toks = append(toks, tok{lit: []term{{data: v}}}, tok{lit: []term{{data: v[:r.Range(9, 16)]}, {star: true}, {data: v[len(v)-1:]}}})
+		w := dict[r.Intn(len(dict))]
+		toks = append(toks, tok{lit: []term{{data: w}}})
+	}
+	return toks
+}
+
 // fracDictNum: a dictionary dominated by numbers in many spellings ("1.7", "+1.7", "01.70", "17e-1", "1.7e0", ...)
 // so that the numeric region itself spans several token blocks.
 func fracDictNum(seed int64, n int) [][]byte {
@@ -477,6 +522,8 @@ func (h *H) runFrac(env *fracEnv, seed int64, n int, seqs [][]tok) {
 	dict := fracDict(seed, n)
 	var extra map[string][][]byte
 	switch n % 10 {
+	case 6:
+		dict = fracDictSkew(seed, n)
 	case 4:
 		dict = fracDictHuge(seed, n)
 	case 5:
@@ -505,6 +552,9 @@ func (h *H) runFrac(env *fracEnv, seed int64, n int, seqs [][]tok) {
 		}
 		if n%10 == 4 {
 			toks = hugeTokens(dict)
+		}
+		if n%10 == 6 {
+			toks = skewTokens(dict, h.rnd)
 		}
 		rev := make([]tok, len(toks))
 		for i, t := range toks {
@@ -641,6 +691,11 @@ func (h *H) checkLayout(form string, f frac.Fraction, seed int64, n int, dict []
 			}
 		}
 		h.orFrac.Distribution[fmt.Sprintf("layout-entries>=%d", len(runs)/64*64)]++
+		big := 0
+		for _, run := range runs {
+			big = max(big, dictBytes(run))
+		}
+		h.orFrac.Distribution[fmt.Sprintf("layout-largest-run>=%dKiB", big/16384*16)]++
 		return "ok"
 	})
 	key := fmt.Sprintf("frac seed=%d n=%d layout=%s", seed, n, form)
@@ -672,9 +727,9 @@ func (h *H) genFrac() {
 		return
 	}
 	defer env.close()
-	sizes := []int{5, 60, 2500, 5001, 1502, 1203, 605, 1304}
+	sizes := []int{5, 60, 2500, 5001, 1502, 1203, 605, 1304, 23006}
 	if h.o.Thorough() {
-		sizes = []int{1, 5, 60, 700, 2500, 5001, 1502, 1203, 605, 1304, 6000, 12001, 3002, 4003, 2505, 20000}
+		sizes = []int{1, 5, 60, 700, 2500, 5001, 1502, 1203, 605, 1304, 23006, 6000, 12001, 3002, 4003, 2505, 20000, 100406}
 	}
 	for rep := 0; rep < h.o.Pick(1, 3); rep++ {
 		for i, n := range sizes {
